@@ -480,10 +480,13 @@ func (r *runner) queryOnce(v *mstView, pos map[int]int, path string, p *Pred, le
 	}
 	var ids []uint64
 	if pnc := vf.Catch(func() {
-		if path == "show" {
+		switch path {
+		case "show":
 			ids, err = r.x.SearchIDs(v.M, e)
-		} else {
+		case "select":
 			ids, err = r.x.ScanIDs(v.M, e, false)
+		default:
+			ids, err = r.x.ScanIDs(v.M, e, true)
 		}
 	}); pnc != nil {
 		err = fmt.Errorf("panic: %v", pnc)
@@ -498,7 +501,7 @@ func (r *runner) queryOnce(v *mstView, pos map[int]int, path string, p *Pred, le
 // second answer is judged. The first one is counted (visibility lag, not a verdict).
 func (r *runner) query(v *mstView, pos map[int]int, path string, p *Pred, leaves []Leaf, want bitset) (idsResult, string, bool) {
 	res, text, ph := r.queryOnce(v, pos, path, p, leaves)
-	if path != "select" || res.err != nil || (res.set.eq(want) && res.retired == 0 && len(res.junk) == 0) {
+	if path == "show" || res.err != nil || (res.set.eq(want) && res.retired == 0 && len(res.junk) == 0) {
 		return res, text, ph
 	}
 	if err := r.x.ClearCache(); err != nil {
@@ -518,9 +521,20 @@ type leafObs struct {
 }
 
 type viewCtx struct {
-	v    *mstView
-	pos  map[int]int
-	full bitset
+	v       *mstView
+	pos     map[int]int
+	full    bitset
+	tagless bool
+}
+
+func (r *runner) newViewCtx(v *mstView) *viewCtx {
+	vc := newViewCtx(v)
+	for _, si := range v.Series {
+		if len(r.sh.u[si].Tags) == 0 {
+			vc.tagless = true
+		}
+	}
+	return vc
 }
 
 func newViewCtx(v *mstView) *viewCtx {
@@ -585,7 +599,40 @@ func (r *runner) checkLeaf(vc *viewCtx, leaves []Leaf, i int, when string) leafO
 			r.violation(sig, fmt.Sprintf("%s WHERE %s on %q %s: %d series, brute force %d", path, text, v.M, when, res.set.count(), o.want.count()), pc, detail)
 		}
 	}
+	if l.IsRegex() && r.replay == nil {
+		// A series without any tag makes the PromQL flavour of the search panic in
+		// SeriesGroup2MapOfProm (slice bounds; outside this property, reported to C18):
+		// measurements holding one are not asked that way.
+		if vc.tagless {
+			c.Count("prom-regex-leaves-skipped (measurement holds a series without tags)", 1)
+		} else {
+			r.checkPromLeaf(vc, leaves, i, when)
+		}
+	}
 	return o
+}
+
+// checkPromLeaf: the same comparison asked the way a PromQL selector asks it
+// (IndexBuilder.Scan with PromQuery set); there the regexp is fully anchored.
+func (r *runner) checkPromLeaf(vc *viewCtx, leaves []Leaf, i int, when string) {
+	c, v := r.c, vc.v
+	l := &leaves[i]
+	anchored := Leaf{Key: l.Key, Op: l.Op, Val: "^(?:" + l.Val + ")$"}
+	want := evalLeaf(r.sh.u, v, &anchored)
+	res, text, _ := r.query(v, vc.pos, "prom", &Pred{Kind: "leaf", Leaf: i}, leaves, want)
+	c.Eval(1)
+	c.Count("prom-regex-leaves", 1)
+	pc := &predCase{M: v.M, Leaves: []Leaf{*l}, Path: "prom"}
+	switch {
+	case res.err != nil:
+		r.violation("search-error:prom:"+errClass(res.err), fmt.Sprintf("prom WHERE %s on %q: %v", text, v.M, res.err), pc, nil)
+	case len(res.junk) > 0 || res.dup || res.retired > 0:
+		r.violation("search-returns-foreign-deleted-or-duplicate-ids:prom", fmt.Sprintf("prom WHERE %s on %q returned ids that are not live series of the measurement: unknown %v, deleted %d, duplicates %v", text, v.M, res.junk, res.retired, res.dup), pc, nil)
+	case !res.set.eq(want):
+		r.violation("regex-leaf-prom:"+regexShape(l.Val)+":"+diffKind(want, res.set), fmt.Sprintf("PromQL-style search WHERE %s on %q %s: %d series, brute force with ^(?:...)$ %d",
+			text, v.M, when, res.set.count(), want.count()), pc,
+			map[string]any{"query": text, "expected": r.describe(v, want, 12), "got": r.describe(v, res.set, 12)})
+	}
 }
 
 // checkTree asks both search paths for a tree over already judged leaves.
@@ -672,7 +719,7 @@ func (r *runner) predicatePhase(rng *rand.Rand, n int, when string) {
 	}
 	perView := max(6, n/len(vs))
 	for _, v := range vs {
-		vc := newViewCtx(v)
+		vc := r.newViewCtx(v)
 		nLeaves := max(3, perView*2/5)
 		nTrees := perView - nLeaves
 		leaves := make([]Leaf, nLeaves)
@@ -952,7 +999,7 @@ func (r *runner) replayPred(pc *predCase) {
 		if v.M != pc.M {
 			continue
 		}
-		vc := newViewCtx(v)
+		vc := r.newViewCtx(v)
 		obs := make([]leafObs, len(pc.Leaves))
 		for i := range pc.Leaves {
 			obs[i] = r.checkLeaf(vc, pc.Leaves, i, "replay")
